@@ -52,9 +52,13 @@ theorem cbsOkAux_of (js : JS) (k : Nat) (dl : List (List Var)) (sl : List Svc) (
     cases sl with
     | nil => cases hlen
     | cons sv sr =>
-      simp only [List.map_cons, cbsOkAux, Bool.and_eq_true, beq_iff_eq]
+      simp only [List.map_cons, cbsOkAux, Bool.and_eq_true]
       constructor
-      · exact h 0 ds sv rfl rfl
+      · have := h 0 ds sv rfl rfl
+        simp only [Nat.add_zero] at this
+        rw [this]
+        simp only [cbCountOk, Nat.le_refl, decide_true, Bool.true_and, Bool.or_eq_true, beq_iff_eq, decide_eq_true_eq]
+        omega
       · apply ih (k + 1) sr (by simpa using hlen)
         intro i ds' sv' h1 h2
         have := h (i + 1) ds' sv' (by simpa using h1) (by simpa using h2)
